@@ -103,6 +103,8 @@ def build(R):
     cache_model.install_lookups(R)
     install(R)
     install_response(R)
+    install_generators(R)
+    cache_model.install_generators(R)
     # contracts proved elsewhere are used by contract here (not re-verified under C06)
 
 
@@ -110,8 +112,7 @@ def configure(ctx, R):
     records.configure(ctx)
 
 
-NO_CONCRETE = {'RecordManager.async_updates', 'RecordManager.async_updates_complete',
-               'RecordManager.async_updates_from_response'}
+NO_CONCRETE = set()
 
 
 # ---------------------------------------------------------------------------------------------------------
@@ -275,3 +276,93 @@ def install_response(R):
                ghost_out={'updates': 'list[RecordUpdate]'},
                ghost_defs=['forall("j:int", lambda j: implies(0 <= j and j < len(%s), %s == j))' % (A, AI % (A + '[j]'))],
                views=views)
+
+
+# ---------------------------------------------------------------------------------------------------------
+# concrete harness (bounded cross-check / replay search): real RecordManager, recording listeners
+class _VLog:
+    def __init__(self):
+        self.events = []
+
+
+def _mk_manager(g, nlisteners):
+    from zeroconf._handlers.record_manager import RecordManager
+    from zeroconf._updates import RecordUpdateListener
+    log = _VLog()
+    captured = {}
+
+    class ZC:
+        def __init__(self, cache):
+            self.cache = cache
+
+        def async_notify_all(self):
+            pass
+
+    class L(RecordUpdateListener):
+        def async_update_records(self, zc, now, records):
+            captured['updates'] = records
+            log.events.append((1, self, id(records)))
+
+        def async_update_records_complete(self):
+            log.events.append((2, self, 0))
+    zc = ZC(g.cache())
+    rm = RecordManager(zc)
+    zc.record_manager = rm
+    for _ in range(nlisteners):
+        rm.listeners.add(L())
+    return rm, log, captured
+
+
+class _Msg:
+    def __init__(self, answers, now):
+        self._answers = answers
+        self.now = now
+
+    def answers(self):
+        return self._answers
+
+
+def _gen_updates(g):
+    rm, log, captured = _mk_manager(g, g.rng.randint(0, 3))
+    recs = [object() for _ in range(g.rng.randint(0, 3))]
+    return {'self': rm, 'now': 1000.0, 'records': recs, '__env__': {'LOG': log},
+            '__ghost_funcs__': {'lid': lambda l: id(l)}}
+
+
+def _gen_complete(g):
+    rm, log, captured = _mk_manager(g, g.rng.randint(0, 3))
+    return {'self': rm, 'notify': g.rng.random() < 0.5, '__env__': {'LOG': log}}
+
+
+def _gen_response(g):
+    import copy
+    rm, log, captured = _mk_manager(g, g.rng.randint(1, 2))
+    now = g.rng.choice([2000.0, 2500.0, 5000.0, 130000.0])
+    cached = [r for st in rm.cache.cache.values() for r in st]
+    answers = []
+    zero = {}
+    for _ in range(g.rng.randint(0, 4)):
+        if cached and g.rng.random() < 0.6:
+            r = copy.copy(g.rng.choice(cached))
+        elif answers and g.rng.random() < 0.3:
+            r = copy.copy(g.rng.choice(answers))
+        else:
+            r = g.record()
+        from pyvc.concrete import ident_of
+        i = ident_of(r)
+        if i not in zero:
+            zero[i] = g.rng.random() < 0.3
+        r.ttl = 0 if zero[i] else g.rng.choice([1, 120, 1124, 1125, 4500])
+        r.created = now
+        answers.append(r)
+    msg = _Msg(answers, now)
+    return {'self': rm, 'msg': msg, '__env__': {'LOG': log},
+            '__ghost_funcs__': {'lid': lambda l: id(l), 'ai': lambda r: [k for k, a in enumerate(answers) if a is r][0]},
+            '__ghost_out__': lambda kw, res: {'updates': captured.get('updates', [])}}
+
+
+def install_generators(R):
+    K = 'zeroconf._handlers.record_manager'
+    R.generators[(K, 'RecordManager.async_updates')] = _gen_updates
+    R.generators[(K, 'RecordManager.async_updates_complete')] = _gen_complete
+    R.generators[(K, 'RecordManager.async_updates_from_response')] = _gen_response
